@@ -213,6 +213,7 @@ LEVEL_TEXT['C11'] += ' Added (unit sigcatch): every signal of every batch the sy
 TECH['C11'] += ' + Env::wait_for_signals / wait_for_signal'
 TECH['C16'] += ' + Env::get_or_create_variable (allexport)'
 TECH['C08'] += ' + RunBlocking::run_blocking (signal mask around tcsetpgrp)'
+TECH['C17'] += ' + LexerCore::substitute_alias (the splice)'
 
 def main():
     checks = []
